@@ -12,8 +12,9 @@ TRUSTED_BASE = [
     "classes) are tied to the vector-point model by correspondence (harness/props/C11.py)",
     "extraction + driver.ml",
 ]
-ASSUMPTIONS = ["exact arithmetic: integer vectors; for inner_dist='euclidean' the generated points differ in one "
-               "coordinate only, so that the (irrational in general) vector norm is an integer"]
+ASSUMPTIONS = ["exact arithmetic: integer vectors; for inner_dist='euclidean' the generated points either differ in one "
+               "coordinate only or lie on a line with a Pythagorean direction ((3,4), (5,12), ...), so that the vector "
+               "norm (the model takes the integer square root of the squared norm) is an exact integer"]
 RULE = ("random (length x d) series, d in 1..4, x DTW settings x site in {distance, warping_paths (distance+matrix), "
         "distance_matrix on a list of 2-D arrays / one 3-D array, d=1 vs univariate on the flattened series, the "
         "multivariate Euclidean upper bound (ub_euclidean, only_ub in both engines) vs the extracted ed_model, "
@@ -23,9 +24,21 @@ GUARD = "non-degenerate psi; window None or >= 1"
 SITES = ["distance", "wps", "matrix", "d1", "ub", "prune"]
 
 
+PYTH = [(3, 4), (4, 3), (6, 8), (5, 12), (8, 15), (3, -4), (-4, 3)]
+
+
 def rand_nd(rng, n, nd, single):
     if single is None:
         return [[rng.randint(-3, 3) for _ in range(nd)] for _ in range(n)]
+    if single[0] == "line":
+        # points on a line with a Pythagorean direction: every pairwise Euclidean distance is an integer although
+        # the points differ in two coordinates (the L1 norm, 7|t| for (3,4), is NOT the answer)
+        _, base, direction = single
+        out = []
+        for _ in range(n):
+            t = rng.randint(-2, 2)
+            out.append([b + t * d for b, d in zip(base, direction)])
+        return out
     base, k = single
     out = []
     for _ in range(n):
@@ -57,6 +70,12 @@ def gen_cases(rng, tier):
         single = None
         if st["inner_dist"] == "euclidean" and nd > 1:
             single = ([rng.randint(-2, 2) for _ in range(nd)], rng.randrange(nd))
+            if rng.random() < 0.5:
+                a, b = rng.choice(PYTH)
+                direction = [0] * nd
+                i, j = rng.sample(range(nd), 2)
+                direction[i], direction[j] = a, b
+                single = ("line", [rng.randint(-2, 2) for _ in range(nd)], direction)
         case = {"site": eng + "." + kind, "kind": kind, "eng": eng, "ndim": nd, "s1": rand_nd(rng, r, nd, single),
                 "s2": rand_nd(rng, c, nd, single), "settings": st}
         if kind == "matrix":
